@@ -63,6 +63,62 @@ func singleReturn(body []ast.Stmt) ast.Expr {
 	return nil
 }
 
+// helperKind reads a two-parameter integer helper `func name(a, b pyInt) pyInt` and names its body if it is one of
+// the shapes the model knows (parameter names are normalised to a, b; the local to v):
+//   floormod:  v := a % b; if v != 0 && (v < 0) != (b < 0) { v += b }; return v
+//   floordiv:  v := a / b; if a%b != 0 && (a < 0) != (b < 0) { v-- }; return v
+func helperKind(f *xlib.File, name string) string {
+	var fd *ast.FuncDecl
+	for _, d := range f.AST.Decls {
+		if x, ok := d.(*ast.FuncDecl); ok && x.Recv == nil && x.Name.Name == name {
+			fd = x
+		}
+	}
+	if fd == nil || fd.Type.Params == nil {
+		return ""
+	}
+	var params []string
+	for _, fl := range fd.Type.Params.List {
+		if f.Src(fl.Type) != "pyInt" {
+			return ""
+		}
+		for _, n := range fl.Names {
+			params = append(params, n.Name)
+		}
+	}
+	if len(params) != 2 || fd.Type.Results == nil || len(fd.Type.Results.List) != 1 || f.Src(fd.Type.Results.List[0].Type) != "pyInt" {
+		return ""
+	}
+	if len(fd.Body.List) != 3 {
+		return ""
+	}
+	as, ok := fd.Body.List[0].(*ast.AssignStmt)
+	if !ok || as.Tok != token.DEFINE || len(as.Lhs) != 1 {
+		return ""
+	}
+	local, ok := as.Lhs[0].(*ast.Ident)
+	if !ok {
+		return ""
+	}
+	ren := map[string]string{params[0]: "a", params[1]: "b", local.Name: "v"}
+	ast.Inspect(fd.Body, func(n ast.Node) bool {
+		if id, ok := n.(*ast.Ident); ok {
+			if r, ok := ren[id.Name]; ok {
+				id.Name = r
+			}
+		}
+		return true
+	})
+	body := strings.Join(strings.Fields(f.Src(fd.Body)), "")
+	switch body {
+	case "{v:=a%b;ifv!=0&&(v<0)!=(b<0){v+=b};returnv}", "{v:=a%bifv!=0&&(v<0)!=(b<0){v+=b}returnv}":
+		return "floormod"
+	case "{v:=a/b;ifa%b!=0&&(a<0)!=(b<0){v--};returnv}", "{v:=a/bifa%b!=0&&(a<0)!=(b<0){v--}returnv}":
+		return "floordiv"
+	}
+	return ""
+}
+
 func main() {
 	g := xlib.Parse("src/parse/asp/grammar.go")
 	o := xlib.Parse("src/parse/asp/objects.go")
@@ -198,6 +254,15 @@ func main() {
 					} else if ce, ok := core.(*ast.CallExpr); ok && o.Src(ce.Fun) == "math.Floor" && len(ce.Args) == 1 {
 						if be, ok := ce.Args[0].(*ast.BinaryExpr); ok && be.Op == token.QUO && strings.HasPrefix(o.Src(be.X), "float64(") && strings.HasPrefix(o.Src(be.Y), "float64(") {
 							kind = "floor(float/float)"
+						}
+					}
+					if ce, ok := core.(*ast.CallExpr); ok && kind == "" && len(ce.Args) == 2 {
+						// a call of a helper on (receiver, operand): read the helper's body
+						fn, isId := ce.Fun.(*ast.Ident)
+						x, xok := strip(ce.Args[0]).(*ast.Ident)
+						_, yok := strip(ce.Args[1]).(*ast.Ident)
+						if isId && xok && yok && x.Name == recv {
+							kind = helperKind(o, fn.Name)
 						}
 					}
 					if kind == "" {
@@ -336,6 +401,50 @@ func main() {
 		xlib.Unreadable("interpretSlice: no pyList case")
 	}
 	out.Def("listSlice", "String", xlib.LeanStr(share))
+
+	// ---- interpretOps: the shape the model transcribes (Model/AspOps.lean)
+	//   if ops[0].Op.Precedence() >= ops[1].Op.Precedence() { … interpretOps(interpretOp(obj, ops[0]), ops[1:]) }
+	//   … interpretOp(interpretOps(obj, ops[1:]), ops[0])                       (unary)
+	//   nobj := interpretOps(interpretExpression(ops[0].Expr), ops[1:]); return interpretOp(obj, OpExpression{…nobj})
+	iops := in.Func("scope.interpretOps")
+	if len(iops.Type.Params.List) < 2 || len(iops.Type.Params.List[0].Names) != 1 || len(iops.Type.Params.List[1].Names) != 1 {
+		xlib.Unreadable("interpretOps: unexpected parameter list")
+	}
+	objName, opsName := iops.Type.Params.List[0].Names[0].Name, iops.Type.Params.List[1].Names[0].Name
+	norm := func(e ast.Expr) string {
+		// ops[i].Op.Precedence()  ->  ops[i]
+		t := strings.ReplaceAll(in.Src(e), opsName+"[", "ops[")
+		return strings.TrimSuffix(t, ".Op.Precedence()")
+	}
+	compare, restCalls, recheck := "", 0, false
+	ast.Inspect(iops.Body, func(n ast.Node) bool {
+		switch t := n.(type) {
+		case *ast.IfStmt:
+			if be, ok := t.Cond.(*ast.BinaryExpr); ok && strings.HasSuffix(in.Src(be.X), ".Op.Precedence()") && strings.HasSuffix(in.Src(be.Y), ".Op.Precedence()") {
+				if compare != "" {
+					xlib.Unreadable("interpretOps: more than one precedence comparison")
+				}
+				compare = norm(be.X) + " " + be.Op.String() + " " + norm(be.Y)
+			}
+		case *ast.CallExpr:
+			if strings.HasSuffix(in.Src(t.Fun), ".interpretOps") && len(t.Args) == 2 && in.Src(t.Args[1]) == opsName+"[1:]" {
+				restCalls++
+			}
+		}
+		return true
+	})
+	if last, ok := iops.Body.List[len(iops.Body.List)-1].(*ast.ReturnStmt); ok && len(last.Results) == 1 {
+		if ce, ok := last.Results[0].(*ast.CallExpr); ok && strings.HasSuffix(in.Src(ce.Fun), ".interpretOp") && len(ce.Args) == 2 {
+			_, isLit := ce.Args[1].(*ast.CompositeLit)
+			recheck = in.Src(ce.Args[0]) == objName && isLit
+		}
+	}
+	if compare == "" {
+		xlib.Unreadable("interpretOps: no precedence comparison found")
+	}
+	out.Def("opsCompare", "String", xlib.LeanStr(compare))
+	out.Def("opsRestCalls", "Nat", strconv.Itoa(restCalls))
+	out.Def("opsRecheck", "Bool", xlib.LeanBool(recheck))
 	_ = fmt.Sprint
 	out.Write()
 }
